@@ -804,6 +804,26 @@ def check_conf(ctx, kind, flag, m, salt):
     lwre.set_func_hessian_prob_dists_from_standard_qt(qt)
     for name, l_ in (("wse", generic_wse(qt, data, None)), ("fast-wse", fast_wse(qt, data, None)), ("wre", lwre), ("fast-wre", lfwre)):
         alias_check(ctx, name, l_, xa, rep, hess=(nv <= 16))
+    # --- (2a'') value / gradient with validate=True (only warnings are printed) equal the default call, also at non-physical points
+    import contextlib, io
+    xneg = point(g, qt, true, kind, testers, "outside")
+    A_v, b_v = qt.calc_matA(), qt.calc_vecB()
+    for scale in (1.0, 3.0):
+        xv = np.array(true.to_var(), dtype=np.float64) + scale * (xneg - np.array(true.to_var(), dtype=np.float64))
+        if float((A_v @ xv + b_v).min()) < -1e-3:
+            break
+    lw_g, lw_f = generic_wse(qt, data, None), fast_wse(qt, data, None)
+    lw_gw, lw_fw = generic_wse(qt, data, sym_weights(g, S, mm)), None
+    lw_fw = fast_wse(qt, data, lw_gw.weight_matrices)
+    for name, l_ in (("wse", lw_g), ("fast-wse", lw_f), ("wse-weighted", lw_gw), ("fast-wse-weighted", lw_fw), ("wre", lwre), ("fast-wre", lfwre)):
+        xe = xv if "wse" in name else xa
+        with contextlib.redirect_stdout(io.StringIO()):
+            v_def, g_def = float(l_.value(xe)), np.array(l_.gradient(xe), dtype=float)
+            v_val, g_val = float(l_.value(xe, validate=True)), np.array(l_.gradient(xe, validate=True), dtype=float)
+            v_again = float(l_.value(xe))
+        if not (close(v_val, v_def, 1e-12) and np.allclose(g_val, g_def, rtol=1e-12, atol=1e-14) and close(v_again, v_def, 1e-12)):
+            ctx.violate(f"C12/{name}/validate-flag", f"{tag}: value/gradient with validate=True differ from the default call "
+                        f"({v_val} vs {v_def}; min predicted probability {float((A_v @ xe + b_v).min()):.3g})", rep)
     # --- (2b) a SECOND loss object with a different model, evaluated at the bit-identical variable point
     if kind == "qst":
         pv = testers["povms"]
@@ -948,18 +968,20 @@ def check_conf(ctx, kind, flag, m, salt):
                             f"unbiased inverse-covariance definition {ref}", {**rep, "mode": mode})
     # relative entropy: custom weights given through the option
     if min(float(np.min(p)) for p in pb) > 0.02:
-        wopt = [float(v) for v in g.integers(2, 6, size=S)]
-        wopt[int(g.integers(0, S))] = 0.0
-        ref = sum(wopt[j] * sum(fi * math.log(fi / pi) for fi, pi in zip(f, p) if fi > 0) for j, (p, f) in enumerate(zip(pb, qs)))
-        for name, cls, ocls in (("generic", WRE, WREO), ("fast", FWRE, FWREO)):
-            l = cls(nv)
-            try:
-                l.set_from_standard_qtomography_option_data(qt, ocls("custom", weights=wopt), data, True, False)
-                v = float(l.value(xp))
-            except Exception as e:  # noqa
-                ctx.violate(f"C12/wre/{name}/custom/raises", f"{type(e).__name__}: {e}", rep); continue
-            if not close(v, ref, 1e-8):
-                ctx.violate("C12/wre/custom-weights-ignored", f"{name} relative entropy configured with custom weights {wopt}: value {v} vs Σ w_j D(q_j‖p_j) = {ref}", rep)
+        wmixed = [float(v) for v in g.integers(2, 6, size=S)]
+        wmixed[int(g.integers(0, S))] = 0.0
+        wuni = [float(g.integers(2, 6))] * S                 # all weights equal: a pure rescaling of the loss, still a weighting
+        for wopt in (wmixed, wuni):
+            ref = sum(wopt[j] * sum(fi * math.log(fi / pi) for fi, pi in zip(f, p) if fi > 0) for j, (p, f) in enumerate(zip(pb, qs)))
+            for name, cls, ocls in (("generic", WRE, WREO), ("fast", FWRE, FWREO)):
+                l = cls(nv)
+                try:
+                    l.set_from_standard_qtomography_option_data(qt, ocls("custom", weights=wopt), data, True, False)
+                    v = float(l.value(xp))
+                except Exception as e:  # noqa
+                    ctx.violate(f"C12/wre/{name}/custom/raises", f"{type(e).__name__}: {e}", rep); continue
+                if not close(v, ref, 1e-8):
+                    ctx.violate("C12/wre/custom-weights-ignored", f"{name} relative entropy configured with custom weights {wopt}: value {v} vs Σ w_j D(q_j‖p_j) = {ref}", rep)
     # --- (4z) one loss object configured for this tomography, then for one with ANOTHER number of variables (flag flipped)
     qt_o, true_o, testers_o = build_m(ctx.npgen(salt + 9000), kind, not flag, m)
     if qt_o.num_variables != nv:
@@ -1101,6 +1123,71 @@ def check_callables(ctx, salt):
                                 f"H·d vs central difference of the gradient: max diff {np.abs(cdg - H @ dvec).max():.3e} (model with curvature)", rep); break
 
 
+def check_sequence(ctx, salt):
+    """the standard call path over a SEQUENCE of data sets (LossMinimizationEstimator.calc_estimate_sequence): for every data set the
+    weighting mode has to take effect with THAT data set's shot counts / distributions.  The optimiser is replaced by a probe algorithm
+    that records value and gradient of the loss (as the estimator configured it) at a fixed point, so only the loss wiring is exercised."""
+    from quara.protocol.qtomography.standard.loss_minimization_estimator import LossMinimizationEstimator
+    from quara.minimization_algorithm.minimization_algorithm import (
+        MinimizationAlgorithm, MinimizationAlgorithmOption, MinimizationResult)
+    g = ctx.npgen(salt)
+    rep = {"kind": "sequence", "salt": salt}
+    qt, true, testers = build_m(g, "qst", True, 2)
+    ps = qt.calc_prob_dists(true)
+    x0 = np.array(true.to_var(), dtype=np.float64) + 0.05
+
+    class Probe(MinimizationAlgorithm):
+        def __init__(self):
+            super().__init__()
+            self._is_gradient_required = True
+
+        def set_constraint_from_standard_qt_and_option(self, qt_, option):
+            pass
+
+        def is_loss_sufficient(self):
+            return True
+
+        def optimize(self, loss_function, loss_function_option, algorithm_option, on_iteration_history=False):
+            return MinimizationResult(np.concatenate([[float(loss_function.value(x0))], np.asarray(loss_function.gradient(x0), dtype=float)]))
+
+    def dataset(base):   # moderate shot counts, different per schedule and per data set
+        return [(int(base * (j + 1)), g.multinomial(int(base * (j + 1)), np.clip(p, 0, None) / np.clip(p, 0, None).sum()) / int(base * (j + 1)))
+                for j, p in enumerate(ps)]
+    seqs = [dataset(40), dataset(300), dataset(90)]
+    ctx.case(("sequence", salt), sample={"op": "estimate sequence", "datasets": len(seqs)})
+    W2 = sym_weights(g, qt.num_schedules, 2)
+    for mode, wts in (("identity", None), ("custom", W2), ("inverse_sample_covariance", None), ("inverse_unbiased_covariance", None), (ALIAS, None)):
+        for name, cls, ocls in (("generic", WSE, WSEO), ("fast", FWSE, FWSEO)):
+            def run(datasets):
+                res = LossMinimizationEstimator().calc_estimate_sequence(
+                    qt, datasets, loss=cls(qt.num_variables), loss_option=ocls(mode, weights=wts), algo=Probe(),
+                    algo_option=MinimizationAlgorithmOption())
+                return [np.array(v, dtype=float) for v in res.estimated_var_sequence]
+            try:
+                in_seq = run(seqs)
+                alone = [run([d])[0] for d in seqs]
+            except Exception as e:  # noqa
+                ctx.violate(f"C12/sequence/{name}/{mode}/raises", f"{type(e).__name__}: {e}", {**rep, "mode": mode}); continue
+            for k_, (a_, b_) in enumerate(zip(in_seq, alone)):
+                if not np.allclose(a_, b_, rtol=1e-9, atol=1e-11):
+                    ctx.violate(f"C12/sequence/{mode}/weights-of-an-earlier-data-set",
+                                f"{name} loss, data set #{k_ + 1} of a sequence estimate: value {a_[0]} differs from the value {b_[0]} of a loss "
+                                f"configured with that data set alone (mode {mode})", {**rep, "mode": mode})
+                    break
+    # relative entropy likewise (custom weights)
+    wv = [float(v) for v in g.integers(1, 5, size=qt.num_schedules)]
+    for name, cls, ocls in (("generic", WRE, WREO), ("fast", FWRE, FWREO)):
+        def run2(datasets):
+            res = LossMinimizationEstimator().calc_estimate_sequence(
+                qt, datasets, loss=cls(qt.num_variables), loss_option=ocls("custom", weights=wv), algo=Probe(),
+                algo_option=MinimizationAlgorithmOption())
+            return [np.array(v, dtype=float) for v in res.estimated_var_sequence]
+        in_seq = run2(seqs)
+        alone = [run2([d])[0] for d in seqs]
+        if not all(np.allclose(a_, b_, rtol=1e-9, atol=1e-11) for a_, b_ in zip(in_seq, alone)):
+            ctx.violate("C12/sequence/wre/custom", f"{name} relative entropy: a data set inside a sequence is not treated like the data set alone", rep)
+
+
 def check_simple(ctx, salt):
     g = ctx.npgen(salt)
     for t in range(5):
@@ -1136,6 +1223,7 @@ def oracle(ctx, volume=1):
         guarded(ctx, check_conf, ctx, kind, flag, m, salt)
     guarded(ctx, check_simple, ctx, 499)
     guarded(ctx, check_callables, ctx, 498)
+    guarded(ctx, check_sequence, ctx, 497)
 
 
 def search(ctx):
@@ -1154,6 +1242,8 @@ def replay(ctx, data):
         return 1 if len(ctx.violations) > before else 0
     if r["kind"] == "callables":
         check_callables(ctx, r["salt"])
+    elif r["kind"] == "sequence":
+        check_sequence(ctx, r["salt"])
     elif r["kind"] == "conf":
         check_conf(ctx, r["tomo"], r["flag"], r["m"], r["salt"])
     else:
